@@ -267,7 +267,8 @@ class StmtMixin:
         ex = it.extra
         if ex is not None and ex[0] == "enumerate" and isinstance(target, (ast.Tuple, ast.List)) \
                 and len(target.elts) == 2:
-            self.assign(target.elts[0], Val(deps=it.deps, tags=["loopindex", tag]), iter_node)
+            from .interp_call import strip_obs
+            self.assign(target.elts[0], Val(deps=strip_obs(it.deps), tags=["loopindex", tag]), iter_node)
             inner = ex[1]
             self.bind_loop_target(target.elts[1], inner, iter_node)
             return
@@ -310,6 +311,7 @@ class StmtMixin:
         self.out = ev.a["head"]
         it = self.eval(st.iter)
         ev.a["iter"] = it
+        self.loop_iters[lid] = it
         self.out = saved_out
         return self._run_loop(ev, lid, lambda: self.bind_loop_target(st.target, it, st.iter), st.body, st.orelse,
                               Guard(st.iter, True, Val(deps=it.deps), self.frame.fn))
@@ -330,7 +332,7 @@ class StmtMixin:
         saved_out, saved_loops, saved_guards = self.out, self.loops, self.guards
         pre_env, pre_heap = dict(self.frame.env), self.heap.copy()
         self.guards = saved_guards + (guard,)
-        exit_states = [(pre_env, pre_heap)]           # zero iterations
+        exit_states = [] if self.typestate_mode else [(pre_env, pre_heap)]      # zero iterations
         for gen in (1, 2):
             self.loops = saved_loops + ((lid, gen),)
             self.out = [] if gen == 1 else ev.a["body"]
@@ -351,6 +353,8 @@ class StmtMixin:
             if gen == 1:
                 self.frame.env, self.heap = env, heap
         self.out, self.loops, self.guards = saved_out, saved_loops, saved_guards
+        if not exit_states:
+            exit_states = [(pre_env, pre_heap)]
         env, heap = exit_states[0][0], exit_states[0][1].copy()
         for e, h in exit_states[1:]:
             env = join_env(env, e)
